@@ -3743,8 +3743,8 @@ class __implementations__:
     def cross(a, b, axisa=-1, axisb=-1, axisc=-1, axis=None):
         if axis is not None:
             axisa = axisb = axisc = axis
-        a = _Transpose.to_end(a, axisa)
-        b = _Transpose.to_end(b, axisb)
+        a = _Transpose.to_end(Array.cast(a), axisa)
+        b = _Transpose.to_end(Array.cast(b), axisb)
         dtype = int if a.dtype in (bool, int) and b.dtype in (bool, int) else float # the cross product of integers is integer
         if a.shape[-1] == b.shape[-1] == 2:
             return numpy.einsum('ij,...i,...j', levicivita(2, dtype), a, b)
